@@ -208,6 +208,8 @@ theorem insert_eq (key : α → κ) (P : Nat) (m : ASet α) (hle : m.len ≤ m.v
       | found i => rfl
       | absent i =>
         simp only [Except.toOption, Option.map_some, Idx.pair, Option.bind_eq_bind, Option.bind_some, Nat.zero_add]
+        have e1 : 1 + i = i + 1 := Nat.add_comm 1 i
+        try simp only [e1]
         cases hc : ASet.copyWithin m.vals i (i + 1) (m.len - i) with
         | error e => rfl
         | ok vals' =>
@@ -236,6 +238,10 @@ theorem take_eq (key : α → κ) (P : Nat) (m : ASet α) (hle : m.len ≤ m.val
           simp only [Option.bind_some]
           by_cases hlt : i < m.len - 1
           · simp only [hlt, if_true]
+            -- (the source may write the source index `1 + index` and the count `len - 1 - index`)
+            have e1 : 1 + i = i + 1 := Nat.add_comm 1 i
+            have e2 : m.len - 1 - i = m.len - i - 1 := Nat.sub_right_comm m.len 1 i
+            try simp only [e1, e2]
             cases hc : ASet.copyWithin m.vals (i + 1) i (m.len - i - 1) <;> rfl
           · simp only [hlt, if_false]; rfl
 
